@@ -151,7 +151,547 @@ Section Sigma.
     intros vt els x. unfold make_decision_raw.
     eapply t_seq; [apply t_checkpoint|].
     destruct (trim (drop_false_primes els)) as [r|] eqn:E.
-    - apply t_ret. intros m Hi HP. eapply elsP_trim; eauto. now apply elsP_drop.
+    - apply t_ret. intros m Hi HP. eapply elsP_trim; [exact Hi | apply elsP_drop; eauto | exact E].
     - eapply t_pre; [apply find_or_alloc_ok|]. intros m Hi HP. now apply elsP_drop.
   Qed.
+
+  (* ================================================================================================ *)
+  (* the bodies, relative to recursive callees that meet their specification *)
+  Section Bodies.
+    Variable rapply : N -> N -> bop -> M N.
+    Variable rnegate : N -> M N.
+    Hypothesis Happly : forall a b o x y,
+      triple (fun m => has m a x /\ has m b y) (rapply a b o) (fun r m => has m r (bop_sem o x y)).
+    Hypothesis Hnegate : forall id x,
+      triple (fun m => has m id x) (rnegate id) (fun r m => has m r (negb x)).
+
+    (* ---- compress ------------------------------------------------------------------------------ *)
+    Definition ungroup (g : list (N * list N)) : list elem :=
+      flat_map (fun grp => map (fun p => (p, fst grp)) (snd grp)) g.
+
+    Lemma group_add_perm : forall s p g, Permutation (ungroup (group_add s p g)) ((p, s) :: ungroup g).
+    Proof.
+      intros s p g. induction g as [|[s' ps] g IH]; cbn [group_add ungroup flat_map].
+      - cbn. apply Permutation_refl.
+      - destruct (s' =? s) eqn:E.
+        + apply N.eqb_eq in E. subst s'. cbn [ungroup flat_map fst snd].
+          rewrite map_app. cbn [map]. rewrite <- app_assoc. cbn [app].
+          apply Permutation_sym, Permutation_middle.
+        + cbn [ungroup flat_map fst snd]. fold (ungroup (group_add s p g)). fold (ungroup g).
+          eapply perm_trans; [apply Permutation_app_head, IH|].
+          apply Permutation_sym, Permutation_middle.
+    Qed.
+
+    Lemma group_by_sub_perm : forall els, Permutation (ungroup (group_by_sub els)) els.
+    Proof.
+      intros els. unfold group_by_sub.
+      assert (H : forall g, Permutation (ungroup (fold_left (fun g e => group_add (snd e) (fst e) g) els g)) (ungroup g ++ els)).
+      { induction els as [|[p s] els IH]; intros g; cbn [fold_left].
+        - rewrite app_nil_r. apply Permutation_refl.
+        - eapply perm_trans; [apply IH|]. cbn [fst snd].
+          eapply perm_trans; [apply Permutation_app_tail, group_add_perm|].
+          cbn [app]. apply Permutation_middle. }
+      apply (H []).
+    Qed.
+
+    Definition ungroupB (gbs : list (list bool * bool)) : bvals :=
+      flat_map (fun gb => map (fun x => (x, snd gb)) (fst gb)) gbs.
+    Definition anyb (l : list bool) : bool := existsb (fun b => b) l.
+    Definition cntG (gbs : list (list bool * bool)) : nat := length (filter (fun gb => anyb (fst gb)) gbs).
+
+    Lemma evalE_group : forall xs y, evalE (map (fun x => (x, y)) xs) = anyb xs && y.
+    Proof.
+      induction xs as [|x xs IH]; intros y; [reflexivity|].
+      cbn [map]. unfold evalE in *. cbn [existsb fst snd]. rewrite IH.
+      change (anyb (x :: xs)) with (x || anyb xs).
+      destruct x, y, (anyb xs); reflexivity.
+    Qed.
+    Lemma cnt_group : forall xs (y : bool), cnt (map (fun x => (x, y)) xs) = count_true xs.
+    Proof. intros. unfold cnt. rewrite map_map. cbn. now rewrite map_id. Qed.
+
+    Lemma cntG_one : forall gbs, cnt (ungroupB gbs) = 1%nat -> cntG gbs = 1%nat.
+    Proof.
+      assert (Hz : forall xs, count_true xs = 0%nat -> anyb xs = false).
+      { induction xs as [|[|] xs IH]; cbn; intros H; auto; discriminate. }
+      assert (Hp : forall xs, (0 < count_true xs)%nat -> anyb xs = true).
+      { induction xs as [|[|] xs IH]; cbn; intros H; auto; lia. }
+      assert (H0 : forall gbs, cnt (ungroupB gbs) = 0%nat -> cntG gbs = 0%nat).
+      { induction gbs as [|[xs y] gbs IH]; intros H; [reflexivity|].
+        unfold ungroupB in H. cbn [flat_map fst snd] in H. rewrite cnt_app, cnt_group in H.
+        unfold cntG. cbn [filter fst]. rewrite Hz by lia. apply IH. unfold ungroupB. lia. }
+      induction gbs as [|[xs y] gbs IH]; intros H; [discriminate|].
+      unfold ungroupB in H. cbn [flat_map fst snd] in H. rewrite cnt_app, cnt_group in H.
+      unfold cntG. cbn [filter fst].
+      destruct (count_true xs) as [|k] eqn:E.
+      - rewrite Hz by exact E. apply IH. unfold ungroupB. lia.
+      - rewrite Hp by lia. cbn [length]. f_equal. apply H0. unfold ungroupB. lia.
+    Qed.
+
+    Lemma in_combine_map : forall {X Y} (f : X -> Y) l x y, In (x, y) (combine l (map f l)) -> y = f x /\ In x l.
+    Proof.
+      intros X Y f l. induction l as [|a l IH]; intros x y H; [destruct H|].
+      cbn in H. destruct H as [[= <- <-]|H]; [split; [reflexivity | now left]|].
+      destruct (IH _ _ H). split; [assumption | now right].
+    Qed.
+
+    Lemma compress_ok : forall els x,
+      triple (elsP els x) (compress rapply els) (fun els' m => elsP els' x m).
+    Proof.
+      intros els x. unfold compress.
+      eapply t_seq; [apply t_checkpoint|].
+      destruct (N.of_nat (length (group_by_sub els)) =? N.of_nat (length els)).
+      { apply t_ret. auto. }
+      apply t_init. intros m0 Hi0 HP0.
+      set (g := group_by_sub els).
+      pose proof (elsP_perm _ _ _ _ HP0 (Permutation_sym (group_by_sub_perm els))) as [bsg (A & B & C)].
+      fold g in A.
+      set (V := SemProofs.val sigma (nodes m0)).
+      set (gb := fun grp : N * list N => (map V (snd grp), V (fst grp))).
+      set (Pall := fun m : mgr => Forall (fun grp => Forall (fun p => has m p (V p) /\ has m (fst grp) (V (fst grp))) (snd grp)) g).
+      assert (HPall0 : Pall m0 /\ bsg = ungroupB (map gb g)).
+      { unfold Pall. clear - A. revert bsg A. induction g as [|[s ps] g IH]; intros bsg A.
+        - inversion A. split; [constructor | reflexivity].
+        - unfold ungroup in A. cbn [flat_map fst snd] in A. fold (ungroup g) in A.
+          apply Forall2_app_inv_l in A as (b1 & b2 & A1 & A2 & ->).
+          destruct (IH _ A2) as [I1 I2]. subst b2.
+          assert (Hg : Forall (fun p => has m0 p (V p) /\ has m0 s (V s)) ps /\ b1 = map (fun x => (x, V s)) (map V ps)).
+          { clear - A1. revert b1 A1. induction ps as [|p ps IHp]; intros b1 A1.
+            - inversion A1. split; constructor.
+            - inversion A1 as [|? [x y] ? b1' [Hp Hs] A1']; subst. cbn [fst snd] in *.
+              destruct (IHp _ A1') as [J1 J2].
+              assert (x = V p) by (destruct Hp; auto). assert (y = V s) by (destruct Hs; auto). subst x y.
+              split; [constructor; auto | cbn; now rewrite J2]. }
+          destruct Hg as [G1 G2]. split; [constructor; auto|].
+          cbn [map]. unfold ungroupB. cbn [flat_map fst snd gb]. now rewrite G2. }
+      destruct HPall0 as [HPall0 Hbsg].
+      assert (SPall : stable Pall).
+      { unfold Pall. intros m m' H He. eapply Forall_impl; [|exact H]. intros grp Hg.
+        eapply Forall_impl; [|exact Hg]. intros p [H1 H2]. split; eapply has_ext; eauto. }
+      set (I := fun (acc : list elem) (dG : list (list bool * bool)) (m : mgr) =>
+                  exists bacc, els_has m acc bacc /\ evalE bacc = evalE (ungroupB dG) /\ cnt bacc = cntG dG).
+      eapply t_conseq.
+      - refine (t_mfoldl sigma _ Pall I g (map gb g) SPall _ _ [] []).
+        + now rewrite map_length.
+        + intros acc dG grp gbv Hin. apply in_combine_map in Hin as [-> Hing].
+          destruct grp as [s [|p0 rest]]; cbn [snd fst].
+          { apply t_fail. intros a; discriminate. }
+          (* the inner fold over the remaining primes of the group *)
+          set (P2 := fun m : mgr => I acc dG m /\ Pall m).
+          assert (SP2 : stable P2).
+          { apply stable_and; [|exact SPall]. unfold I. intros m m' [bacc (X & Y & Z)] He. exists bacc.
+            repeat split; auto. eapply els_has_ext; eauto. }
+          set (I2 := fun (a : N) (dx : list bool) (m : mgr) => has m a (fold_left orb dx (V p0))).
+          eapply t_bind.
+          * eapply t_pre.
+            -- refine (t_mfoldl sigma (fun a p => rapply a p Or) P2 I2 rest (map V rest) SP2 _ _ p0 []).
+               ++ now rewrite map_length.
+               ++ intros a dx p vx Hin2. apply in_combine_map in Hin2 as [-> Hinp].
+                  eapply t_conseq.
+                  ** apply (t_call sigma (fun m => I2 a dx m /\ P2 m) _ _ _ (Happly a p Or (fold_left orb dx (V p0)) (V p))).
+                     --- apply stable_and; [unfold I2; auto with stab | exact SP2].
+                     --- intros m Hi [H1 [_ HPa]]. split; [exact H1|].
+                         unfold Pall in HPa. rewrite Forall_forall in HPa. specialize (HPa _ Hing).
+                         cbn [snd] in HPa. rewrite Forall_forall in HPa. exact (proj1 (HPa p (or_intror Hinp))).
+                  ** intros m Hi H; exact H.
+                  ** intros r m Hi [H1 [_ H2]]. split; [|exact H2]. unfold I2. rewrite fold_left_app. exact H1.
+            -- intros m Hi [HI HPa]. split; [|split; assumption]. unfold I2. cbn [fold_left app].
+               unfold Pall in HPa. rewrite Forall_forall in HPa. specialize (HPa _ Hing).
+               cbn [snd] in HPa. rewrite Forall_forall in HPa. exact (proj1 (HPa p0 (or_introl eq_refl))).
+          * intros merged. apply t_ret. intros m Hi [Hm [[bacc (X & Y & Z)] HPa]].
+            split; [|exact HPa]. unfold I2 in Hm. cbn [app] in Hm.
+            assert (Hs : has m s (V s)).
+            { unfold Pall in HPa. rewrite Forall_forall in HPa. specialize (HPa _ Hing).
+              cbn [snd fst] in HPa. rewrite Forall_forall in HPa. exact (proj2 (HPa p0 (or_introl eq_refl))). }
+            assert (Hor : fold_left orb (map V rest) (V p0) = anyb (V p0 :: map V rest)).
+            { clear. cbn [anyb existsb]. generalize (V p0). induction (map V rest) as [|b l IH]; intros c; cbn.
+              - now rewrite orb_false_r.
+              - rewrite IH. destruct c, b; reflexivity. }
+            exists (bacc ++ [(anyb (V p0 :: map V rest), V s)]). split; [|split].
+            -- apply Forall2_app; [exact X|]. constructor; [|constructor]. cbn [fst snd]. rewrite <- Hor. split; assumption.
+            -- rewrite evalE_app, Y. unfold ungroupB. rewrite flat_map_app, evalE_app. f_equal.
+               cbn [flat_map gb fst snd map]. rewrite app_nil_r.
+               change ((V p0, V s) :: map (fun x0 : bool => (x0, V s)) (map V rest))
+                 with (map (fun x0 : bool => (x0, V s)) (V p0 :: map V rest)).
+               rewrite (evalE_group (V p0 :: map V rest) (V s)). unfold evalE. cbn [existsb fst snd]. now rewrite orb_false_r.
+            -- rewrite cnt_app, Z. unfold cntG. rewrite filter_app, app_length. f_equal.
+               cbn [filter gb fst snd map]. rewrite cnt_cons. cbn [cnt map count_true filter length].
+               destruct (anyb (V p0 :: map V rest)); reflexivity.
+      - intros m Hi ->. split; [|exact HPall0]. exists []. repeat split. constructor.
+      - intros els' m Hi [[bacc (X & Y & Z)] _]. cbn [app] in *. exists bacc. split; [exact X|].
+        rewrite <- Hbsg in Y. split; [|congruence].
+        unfold part in *. rewrite Z. apply cntG_one. now rewrite <- Hbsg.
+    Qed.
+
+    (* ---- unique_d ------------------------------------------------------------------------------ *)
+    Lemma unique_d_ok : forall vt els x,
+      triple (elsP els x) (unique_d rapply vt els) (fun r m => has m r x).
+    Proof.
+      intros vt els x. unfold unique_d.
+      eapply t_seq; [apply t_checkpoint|].
+      destruct (trim (drop_false_primes els)) as [r|] eqn:E.
+      - apply t_ret. intros m Hi HP. eapply elsP_trim; [exact Hi | apply elsP_drop; eauto | exact E].
+      - eapply t_bind.
+        + eapply t_pre; [apply compress_ok|]. intros m Hi HP. apply elsP_drop; eauto.
+        + intros els2. cbn beta. destruct (trim els2) as [r|] eqn:E2.
+          * apply t_ret. intros m Hi HP. eapply elsP_trim; eauto.
+          * apply find_or_alloc_ok.
+    Qed.
+
+    (* ---- expand ---------------------------------------------------------------------------------- *)
+    Lemma elsP_single : forall m id x, MInvS m -> has m id x -> elsP [(ID_TRUE, id)] x m.
+    Proof.
+      intros m id x Hi H. exists [(true, x)]. split; [|split; [reflexivity | cbn; now rewrite orb_false_r]].
+      constructor; [|constructor]. split; [apply has1; auto | exact H].
+    Qed.
+    Lemma elsP_pair : forall m id neg x, MInvS m -> has m id x -> has m neg (negb x) ->
+      elsP [(id, ID_TRUE); (neg, ID_FALSE)] x m.
+    Proof.
+      intros m id neg x Hi H Hn. exists [(x, true); (negb x, false)]. split; [|split].
+      - constructor; [|constructor; [|constructor]]; (split; [assumption | try apply has1; try apply has0; auto]).
+      - unfold part. rewrite !cnt_cons. destruct x; reflexivity.
+      - cbn. destruct x; reflexivity.
+    Qed.
+
+    Lemma expand_ok : forall id vt x,
+      triple (fun m => has m id x) (expand rnegate id vt) (fun els m => elsP els x m).
+    Proof.
+      intros id vt x. unfold expand.
+      eapply t_seq; [apply t_checkpoint|].
+      destruct (id =? ID_TRUE) eqn:E1.
+      { apply N.eqb_eq in E1. subst id. apply t_ret. intros m Hi H. now apply elsP_single. }
+      destruct (id =? ID_FALSE) eqn:E0.
+      { apply N.eqb_eq in E0. subst id. apply t_ret. intros m Hi H. now apply elsP_single. }
+      apply t_getm. intros m0.
+      assert (Hother : triple (fun m => m = m0 /\ has m id x)
+                (match vtree_children m0 vt, vtree_of m0 id with
+                 | Some (lft, _), Some nv =>
+                     if (nv =? lft) || is_desc m0 nv lft
+                     then neg <- rnegate id ;; ret [(id, ID_TRUE); (neg, ID_FALSE)]
+                     else ret [(ID_TRUE, id)]
+                 | _, _ => fail Panic
+                 end) (fun els m => elsP els x m)).
+      { destruct (vtree_children m0 vt) as [[lft rgt]|]; [|apply t_fail; intros; discriminate].
+        destruct (vtree_of m0 id) as [nv|]; [|apply t_fail; intros; discriminate].
+        destruct ((nv =? lft) || is_desc m0 nv lft).
+        - apply t_pre with (P' := fun m => has m id x); [|intros m Hi [_ H]; exact H].
+          eapply t_bindk with (P1 := fun m => has m id x) (Q := fun r m => has m r (negb x)).
+          + apply Hnegate.
+          + apply stable_has.
+          + auto.
+          + intros neg. apply t_ret. intros m Hi [Hn H]. now apply elsP_pair.
+        - apply t_ret. intros m Hi [_ H]. now apply elsP_single. }
+      destruct (node_at m0 id) as [| |v pol|dv els] eqn:En; try exact Hother.
+      destruct (dv =? vt); [|exact Hother].
+      apply t_ret. intros m Hi [-> H].
+      destruct (has_dec _ _ _ _ _ Hi (has_valid _ _ _ _ H) En) as [bs (A & B & C)].
+      exists bs. repeat split; auto. eapply has_fun; eauto.
+    Qed.
+
+    (* ---- normalize_to ------------------------------------------------------------------------------ *)
+    Lemma normalize_ok : forall id target x,
+      triple (fun m => has m id x) (normalize_to rapply rnegate id target) (fun r m => has m r x).
+    Proof.
+      intros id target x. unfold normalize_to.
+      eapply t_seq; [apply t_checkpoint|].
+      destruct ((id =? ID_TRUE) || (id =? ID_FALSE)); [apply t_ret; auto|].
+      apply t_getm. intros m0.
+      apply t_pre with (P' := fun m => has m id x); [|intros m Hi [_ H]; exact H].
+      destruct (vtree_of m0 id) as [v|]; [|apply t_ret; auto].
+      destruct (v =? target); [apply t_ret; auto|].
+      destruct (vtree_children m0 target) as [[lft rgt]|]; [|apply t_fail; intros; discriminate].
+      destruct (is_desc m0 v lft).
+      - eapply t_bindk with (P1 := fun m => has m id x) (Q := fun r m => has m r (negb x)).
+        + apply Hnegate.
+        + apply stable_has.
+        + auto.
+        + intros neg. eapply t_pre; [apply make_decision_raw_ok|].
+          intros m Hi [Hn H]. now apply elsP_pair.
+      - destruct (is_desc m0 v rgt); [|apply t_ret; auto].
+        eapply t_pre; [apply unique_d_ok|]. intros m Hi H. now apply elsP_single.
+    Qed.
+
+    (* ---- apply_same_vtree ---------------------------------------------------------------------------- *)
+    Lemma forall2_prod : forall {X Y} (R : X -> Y -> Prop) la la' lb lb',
+      Forall2 R la la' -> Forall2 R lb lb' ->
+      Forall2 (fun p q => R (fst p) (fst q) /\ R (snd p) (snd q)) (list_prod la lb) (list_prod la' lb').
+    Proof.
+      intros X Y R la la' lb lb' Ha Hb. induction Ha as [|a a' la la' Hr Ha IH]; [constructor|].
+      cbn [list_prod]. apply Forall2_app; [|exact IH].
+      clear - Hr Hb. induction Hb; cbn; constructor; auto.
+    Qed.
+    Lemma forall2_len : forall {X Y} (R : X -> Y -> Prop) l l', Forall2 R l l' -> length l = length l'.
+    Proof. intros X Y R l l' H. induction H; cbn; auto. Qed.
+    Lemma forall2_combine_in : forall {X Y} (R : X -> Y -> Prop) l l' x y,
+      Forall2 R l l' -> In (x, y) (combine l l') -> R x y.
+    Proof.
+      intros X Y R l l' x y H. induction H; cbn; intros Hin; [destruct Hin|].
+      destruct Hin as [[= <- <-]|Hin]; auto.
+    Qed.
+
+    Lemma same_vtree_ok : forall a b o vt x y,
+      triple (fun m => has m a x /\ has m b y) (apply_same_vtree rapply rnegate a b o vt)
+             (fun r m => has m r (bop_sem o x y)).
+    Proof.
+      intros a b o vt x y. unfold apply_same_vtree.
+      eapply t_bindk with (P1 := fun m => has m a x) (Q := fun ea m => elsP ea x m).
+      { apply expand_ok. } { auto with stab. } { intros m Hi [H _]; exact H. }
+      intros ea.
+      eapply t_bindk with (P1 := fun m => has m b y) (Q := fun eb m => elsP eb y m).
+      { apply expand_ok. } { auto with stab. } { intros m Hi [_ [_ H]]; exact H. }
+      intros eb.
+      apply t_init. intros m0 Hi0 [[bsb (B1 & B2 & B3)] [[bsa (A1 & A2 & A3)] _]].
+      set (Pall := fun m : mgr => Forall2 (fun (p : elem * elem) (q : gpair) =>
+                     (has m (fst (fst p)) (fst (fst q)) /\ has m (snd (fst p)) (snd (fst q))) /\
+                     (has m (fst (snd p)) (fst (snd q)) /\ has m (snd (snd p)) (snd (snd q))))
+                     (list_prod ea eb) (list_prod bsa bsb)).
+      assert (SPall : stable Pall).
+      { unfold Pall. apply (stable_forall2 (fun (p : elem * elem) (q : gpair) m =>
+           (has m (fst (fst p)) (fst (fst q)) /\ has m (snd (fst p)) (snd (fst q))) /\
+           (has m (fst (snd p)) (fst (snd q)) /\ has m (snd (snd p)) (snd (snd q))))).
+        intros p q. auto with stab. }
+      assert (HPall0 : Pall m0).
+      { unfold Pall. apply (forall2_prod (fun (e : elem) (bv : bool * bool) => has m0 (fst e) (fst bv) /\ has m0 (snd e) (snd bv))); assumption. }
+      set (I := fun (acc : list elem) (dG : list gpair) (m : mgr) =>
+                  exists bacc, els_has m acc bacc /\ evalE bacc = evP o dG /\ cnt bacc = cntP dG).
+      assert (Hlen : length (list_prod ea eb) = length (list_prod bsa bsb)).
+      { rewrite (prod_length ea eb). etransitivity; [|symmetry; apply (prod_length bsa bsb)].
+        f_equal; [exact (forall2_len _ _ _ A1) | exact (forall2_len _ _ _ B1)]. }
+      eapply t_bind.
+      - eapply t_conseq.
+        + refine (t_mfoldl sigma _ Pall I (list_prod ea eb) (list_prod bsa bsb) SPall Hlen _ [] []).
+          intros acc dG [[pa sa] [pb sb]] [[xa ya] [xb yb]] Hin. cbn [fst snd].
+            set (P2 := fun m : mgr => I acc dG m /\ Pall m).
+            assert (SP2 : stable P2).
+            { apply stable_and; [|exact SPall]. unfold I. intros m m' [bacc (X & Y & Z)] He. exists bacc.
+              repeat split; auto. eapply els_has_ext; eauto. }
+            assert (Hrel : forall m, P2 m -> (has m pa xa /\ has m sa ya) /\ (has m pb xb /\ has m sb yb)).
+            { intros m [_ HPa]. exact (forall2_combine_in _ _ _ _ _ HPa Hin). }
+            eapply t_seq; [apply t_checkpoint|].
+            eapply t_bindk with (P1 := fun m => has m pa xa /\ has m pb xb) (Q := fun r m => has m r (xa && xb)).
+            { apply (Happly pa pb And). } { exact SP2. } { intros m Hi H. destruct (Hrel m H) as [[? ?] [? ?]]. auto. }
+            intros prime. destruct (prime =? ID_FALSE) eqn:E0.
+            -- apply N.eqb_eq in E0. subst prime. apply t_ret. intros m Hi [Hp [[bacc (X & Y & Z)] HPa]].
+               split; [|exact HPa]. pose proof (has_fun _ _ _ _ _ Hp (has0 _ _ Hi)) as Hxx.
+               exists bacc. split; [exact X|]. rewrite evP_app, cntP_app. unfold evP, cntP. cbn [existsb filter fst snd].
+               rewrite Hxx. cbn. rewrite orb_false_r, Nat.add_0_r. auto.
+            -- eapply t_bindk with (P1 := fun m => has m sa ya /\ has m sb yb) (Q := fun r m => has m r (bop_sem o ya yb)).
+               { apply (Happly sa sb o). } { apply stable_and; [apply stable_has | exact SP2]. }
+               { intros m Hi [_ H]. destruct (Hrel m H) as [[? ?] [? ?]]. auto. }
+               intros sub. apply t_ret. intros m Hi [Hs [Hp [[bacc (X & Y & Z)] HPa]]].
+               split; [|exact HPa].
+               exists (bacc ++ [(xa && xb, bop_sem o ya yb)]). split; [|split].
+               ++ apply Forall2_app; [exact X|]. constructor; [|constructor]. cbn [fst snd]. auto.
+               ++ rewrite evalE_app, evP_app, Y. unfold evP, evalE. cbn [existsb fst snd]. reflexivity.
+               ++ rewrite cnt_app, cntP_app, Z. rewrite cnt_cons. unfold cntP, cnt. cbn [filter fst snd map count_true length].
+                  destruct (xa && xb); reflexivity.
+        + intros m Hi ->. split; [|exact HPall0]. exists []. repeat split. constructor.
+        + intros els m Hi [[bacc (X & Y & Z)] _]. cbn [app] in *.
+          assert (HP : elsP els (bop_sem o x y) m).
+          { exists bacc. split; [exact X|]. split.
+            - unfold part in *. rewrite Z, cntP_prod, A2, B2. reflexivity.
+            - rewrite Y, evP_prod by assumption. now rewrite A3, B3. }
+          exact HP.
+      - intros els. apply unique_d_ok.
+    Qed.
+
+    Lemma apply_norm_ok : forall a b o t x y,
+      triple (fun m => has m a x /\ has m b y) (apply_norm rapply rnegate a b o t) (fun r m => has m r (bop_sem o x y)).
+    Proof.
+      intros a b o t x y. unfold apply_norm.
+      eapply t_bindk with (P1 := fun m => has m a x) (Q := fun l m => has m l x).
+      { apply normalize_ok. } { auto with stab. } { intros m Hi [H _]; exact H. }
+      intros l.
+      eapply t_bindk with (P1 := fun m => has m b y) (Q := fun r m => has m r y).
+      { apply normalize_ok. } { auto with stab. } { intros m Hi [_ [_ H]]; exact H. }
+      intros r. eapply t_pre; [apply same_vtree_ok|]. intros m Hi [H1 [H2 _]]. split; eauto.
+    Qed.
+
+    Lemma apply_inner_ok : forall a b o x y,
+      triple (fun m => has m a x /\ has m b y) (apply_inner rapply rnegate a b o) (fun r m => has m r (bop_sem o x y)).
+    Proof.
+      intros a b o x y. unfold apply_inner.
+      eapply t_seq; [apply t_checkpoint|].
+      apply t_getm. intros m0.
+      apply t_pre with (P' := fun m => has m a x /\ has m b y); [|intros m Hi [_ H]; exact H].
+      destruct (vtree_of m0 a) as [va|], (vtree_of m0 b) as [vb|]; try apply apply_norm_ok.
+      - destruct (va =? vb); [apply same_vtree_ok|].
+        destruct (if is_desc m0 va vb then Some vb else if is_desc m0 vb va then Some va else find_lca m0 va vb) as [t|];
+          [apply apply_norm_ok | apply t_fail; intros; discriminate].
+      - apply t_fail; intros; discriminate.
+    Qed.
+
+    (* ---- apply (body) ---------------------------------------------------------------------------------- *)
+    Lemma bop_comm : forall o x y, bop_sem o x y = bop_sem o y x.
+    Proof. intros [] [] []; reflexivity. Qed.
+
+    Lemma terminal_ok : forall m a b o x y r,
+      MInvS m -> has m a x -> has m b y -> terminal a b o = Some r -> has m r (bop_sem o x y).
+    Proof.
+      intros m a b o x y r Hi Ha Hb Ht.
+      pose proof (has0 _ _ Hi) as H0. pose proof (has1 _ _ Hi) as H1.
+      unfold terminal, ID_FALSE, ID_TRUE in Ht. destruct o.
+      - destruct ((a =? 0) || (b =? 0)) eqn:E.
+        { injection Ht as <-. apply orb_prop in E as [E|E]; apply N.eqb_eq in E; subst.
+          - rewrite (has_fun _ _ _ _ _ Ha H0). exact H0.
+          - rewrite (has_fun _ _ _ _ _ Hb H0). cbn. now rewrite andb_false_r. }
+        destruct (a =? 1) eqn:E1.
+        { injection Ht as <-. apply N.eqb_eq in E1. subst. now rewrite (has_fun _ _ _ _ _ Ha H1). }
+        destruct (b =? 1) eqn:E2.
+        { injection Ht as <-. apply N.eqb_eq in E2. subst. rewrite (has_fun _ _ _ _ _ Hb H1). cbn. now rewrite andb_true_r. }
+        destruct (a =? b) eqn:E3; [|discriminate].
+        injection Ht as <-. apply N.eqb_eq in E3. subst. rewrite (has_fun _ _ _ _ _ Hb Ha). cbn. now rewrite andb_diag.
+      - destruct ((a =? 1) || (b =? 1)) eqn:E.
+        { injection Ht as <-. apply orb_prop in E as [E|E]; apply N.eqb_eq in E; subst.
+          - rewrite (has_fun _ _ _ _ _ Ha H1). exact H1.
+          - rewrite (has_fun _ _ _ _ _ Hb H1). cbn. now rewrite orb_true_r. }
+        destruct (a =? 0) eqn:E1.
+        { injection Ht as <-. apply N.eqb_eq in E1. subst. now rewrite (has_fun _ _ _ _ _ Ha H0). }
+        destruct (b =? 0) eqn:E2.
+        { injection Ht as <-. apply N.eqb_eq in E2. subst. rewrite (has_fun _ _ _ _ _ Hb H0). cbn. now rewrite orb_false_r. }
+        destruct (a =? b) eqn:E3; [|discriminate].
+        injection Ht as <-. apply N.eqb_eq in E3. subst. rewrite (has_fun _ _ _ _ _ Hb Ha). cbn. now rewrite orb_diag.
+    Qed.
+
+    Lemma compl_ok : forall m a b o x y r,
+      MInvS m -> has m a x -> has m b y -> compl_lits (node_at m a) (node_at m b) o = Some r -> has m r (bop_sem o x y).
+    Proof.
+      intros m a b o x y r Hi Ha Hb Hc. unfold compl_lits in Hc.
+      destruct (node_at m a) as [| |va pa|] eqn:Ea; try discriminate.
+      destruct (node_at m b) as [| |vb pb|] eqn:Eb; try discriminate.
+      destruct ((va =? vb) && negb (Bool.eqb pa pb)) eqn:E; [|discriminate].
+      apply andb_prop in E as [E1 E2]. apply N.eqb_eq in E1. subst vb.
+      pose proof (has_fun _ _ _ _ _ Ha (has_lit _ _ _ _ _ (has_valid _ _ _ _ Ha) Ea)) as Hx.
+      pose proof (has_fun _ _ _ _ _ Hb (has_lit _ _ _ _ _ (has_valid _ _ _ _ Hb) Eb)) as Hy.
+      injection Hc as <-. subst x y.
+      destruct o, (sigma va), pa, pb; cbn in *; try discriminate; try apply has0; try apply has1; auto.
+    Qed.
+
+    Lemma cache_hit_ok : forall m a b o x y r,
+      MInvS m -> has m a x -> has m b y -> alookup akey_eqb (cache_key a b o) (acache m) = Some r ->
+      has m r (bop_sem o x y).
+    Proof.
+      intros m a b o x y r Hi Ha Hb Hl.
+      apply (alookup_in akey_eqb akey_eqb_eq) in Hl. unfold cache_key in Hl.
+      destruct (a <=? b).
+      - destruct (inv_acache _ _ Hi _ _ _ _ Hl) as (x' & y' & A & B & C).
+        now rewrite (has_fun _ _ _ _ _ Ha A), (has_fun _ _ _ _ _ Hb B).
+      - destruct (inv_acache _ _ Hi _ _ _ _ Hl) as (x' & y' & A & B & C).
+        rewrite (has_fun _ _ _ _ _ Ha B), (has_fun _ _ _ _ _ Hb A). now rewrite bop_comm.
+    Qed.
+
+    Lemma acache_ins_inv : forall m a b o x y r,
+      MInvS m -> has m a x -> has m b y -> has m r (bop_sem o x y) ->
+      MInvS (acache_ins (cache_key a b o) r m) /\ ext m (acache_ins (cache_key a b o) r m).
+    Proof.
+      intros m a b o x y r Hi Ha Hb Hr. split.
+      - constructor; try apply Hi.
+        cbn [acache acache_ins]. intros a' b' o' r' [Heq|Hin]; [|exact (inv_acache _ _ Hi _ _ _ _ Hin)].
+        unfold cache_key in Heq. destruct (a <=? b); injection Heq as E1 E2 E3 E4; subst a' b' o' r'.
+        + exists x, y. auto.
+        + exists y, x. rewrite bop_comm. auto.
+      - split; [exists []; cbn; now rewrite app_nil_r | repeat split].
+    Qed.
+
+    Lemma apply_body_ok : forall a b o x y,
+      triple (fun m => has m a x /\ has m b y) (apply_body rapply rnegate a b o) (fun r m => has m r (bop_sem o x y)).
+    Proof.
+      intros a b o x y. unfold apply_body.
+      eapply t_seq; [apply t_checkpoint|].
+      destruct (terminal a b o) as [r|] eqn:Et.
+      { apply t_ret. intros m Hi [Ha Hb]. eapply terminal_ok; eauto. }
+      apply t_getm. intros m0.
+      destruct (compl_lits (node_at m0 a) (node_at m0 b) o) as [r|] eqn:Ec.
+      { apply t_ret. intros m Hi [-> [Ha Hb]]. eapply compl_ok; eauto. }
+      destruct (alookup akey_eqb (cache_key a b o) (acache m0)) as [r|] eqn:El.
+      { apply t_ret. intros m Hi [-> [Ha Hb]]. eapply cache_hit_ok; eauto. }
+      apply t_pre with (P' := fun m => has m a x /\ has m b y); [|intros m Hi [_ H]; exact H].
+      eapply t_bindk with (P1 := fun m => has m a x /\ has m b y) (Q := fun r m => has m r (bop_sem o x y)).
+      { apply apply_inner_ok. } { auto with stab. } { auto. }
+      intros r. eapply t_bind.
+      - apply t_modm with (Q := fun _ m => has m r (bop_sem o x y)).
+        intros m Hi [Hr [Ha Hb]]. destruct (acache_ins_inv m a b o x y r Hi Ha Hb Hr) as [H1 H2].
+        split; [exact H1|]. split; [exact H2|]. eapply has_ext; eauto.
+      - intros u. apply t_ret. auto.
+    Qed.
+
+    (* ---- negate (body) --------------------------------------------------------------------------------- *)
+    Lemma ncache_ins_inv : forall m id x r,
+      MInvS m -> has m id x -> has m r (negb x) -> MInvS (ncache_ins id r m) /\ ext m (ncache_ins id r m).
+    Proof.
+      intros m id x r Hi Ha Hr. split.
+      - constructor; try apply Hi.
+        cbn [ncache ncache_ins]. intros id' r' [Heq|Hin]; [|exact (inv_ncache _ _ Hi _ _ Hin)].
+        injection Heq as E1 E2; subst id' r'. exists x. auto.
+      - split; [exists []; cbn; now rewrite app_nil_r | repeat split].
+    Qed.
+
+    Lemma negate_body_ok : forall id x,
+      triple (fun m => has m id x) (negate_body rapply rnegate id) (fun r m => has m r (negb x)).
+    Proof.
+      intros id x. unfold negate_body.
+      eapply t_seq; [apply t_checkpoint|].
+      destruct (id =? ID_FALSE) eqn:E0.
+      { apply N.eqb_eq in E0. subst id. apply t_ret. intros m Hi H.
+        rewrite (has_fun _ _ _ _ _ H (has0 _ _ Hi)). apply has1; auto. }
+      destruct (id =? ID_TRUE) eqn:E1.
+      { apply N.eqb_eq in E1. subst id. apply t_ret. intros m Hi H.
+        rewrite (has_fun _ _ _ _ _ H (has1 _ _ Hi)). apply has0; auto. }
+      apply t_getm. intros m0.
+      destruct (alookup N.eqb id (ncache m0)) as [r|] eqn:El.
+      { apply t_ret. intros m Hi [-> H].
+        apply (alookup_in N.eqb) in El; [|intros ? ? HH; now apply N.eqb_eq in HH].
+        destruct (inv_ncache _ _ Hi _ _ El) as (x' & A & B). now rewrite (has_fun _ _ _ _ _ H A). }
+      eapply t_bind with (Q := fun r m => has m r (negb x) /\ has m id x).
+      - destruct (node_at m0 id) as [| |v pol|vt els] eqn:En; try (apply t_fail; intros; discriminate).
+        + (* literal *)
+          eapply t_conseq.
+          * apply (t_call sigma (fun m => has m id x /\ node_at m id = NLit v pol /\ valid m id) (fun _ => True) _ _ (literal_ok v (negb pol))).
+            -- intros m m' (A & B & C) He. split; [eapply has_ext; eauto|]. split; [|eapply valid_ext; eauto].
+               rewrite (node_at_ext m) by auto. exact B.
+            -- auto.
+          * intros m Hi [-> H]. split; [exact H|]. split; [exact En | eapply has_valid; eauto].
+          * intros r m Hi [Hr (A & B & C)]. split; [|exact A].
+            rewrite (has_fun _ _ _ _ _ A (has_lit _ _ _ _ _ C B)).
+            replace (negb (Bool.eqb (sigma v) pol)) with (Bool.eqb (sigma v) (negb pol)) by (destruct (sigma v), pol; reflexivity).
+            exact Hr.
+        + (* decision: negate every sub, keep the primes *)
+          apply t_init. intros m1 Hi1 [-> H].
+          destruct (has_dec _ _ _ _ _ Hi1 (has_valid _ _ _ _ H) En) as [bs (A & B & C)].
+          pose proof (has_fun _ _ _ _ _ H C) as Hx.
+          set (Pall := fun m : mgr => els_has m els bs /\ has m id x).
+          assert (SPall : stable Pall) by (unfold Pall; auto with stab).
+          set (I := fun (acc : list elem) (dG : bvals) (m : mgr) =>
+                      els_has m acc (map (fun bv => (fst bv, negb (snd bv))) dG)).
+          eapply t_bind.
+          * eapply t_conseq.
+            -- refine (t_mfoldl sigma _ Pall I els bs SPall (forall2_len _ _ _ A) _ [] []).
+               intros acc dG [p s] [xp xs] Hin. cbn [fst snd].
+               eapply t_bindk with (P1 := fun m => has m s xs) (Q := fun r m => has m r (negb xs)).
+               { apply Hnegate. }
+               { apply stable_and; [unfold I; auto with stab | exact SPall]. }
+               { intros m Hi [_ [HA _]]. exact (proj2 (forall2_combine_in _ _ _ _ _ HA Hin)). }
+               intros ns. apply t_ret. intros m Hi [Hns [HI [HA Hid]]].
+               split; [|split; assumption]. unfold I in *. rewrite map_app. apply Forall2_app; [exact HI|].
+               constructor; [|constructor]. cbn [fst snd map]. split; [|exact Hns].
+               exact (proj1 (forall2_combine_in _ _ _ _ _ HA Hin)).
+            -- intros m Hi ->. split; [constructor | split; assumption].
+            -- intros negs m Hi [HI [HA Hid]]. cbn [app] in HI.
+               assert (HP : elsP negs (negb x) m /\ has m id x).
+               { split; [|exact Hid]. exists (map (fun bv => (fst bv, negb (snd bv))) bs). split; [exact HI|]. split.
+                 - unfold part, cnt in *. rewrite map_map. cbn [fst]. exact B.
+                 - rewrite evalE_neg by exact B. now rewrite Hx. }
+               exact HP.
+          * intros negs. eapply t_conseq.
+            -- apply (t_call sigma (fun m => elsP negs (negb x) m /\ has m id x) (elsP negs (negb x)) _ _ (unique_d_ok vt negs (negb x))).
+               ++ auto with stab.
+               ++ intros m Hi [HH _]; exact HH.
+            -- intros m Hi HH. exact HH.
+            -- intros r m Hi [Hr [_ Hid]]. split; assumption.
+      - intros r. eapply t_bind.
+        + apply t_modm with (Q := fun _ m => has m r (negb x)).
+          intros m Hi [Hr Ha]. destruct (ncache_ins_inv m id x r Hi Ha Hr) as [H1 H2].
+          split; [exact H1|]. split; [exact H2|]. eapply has_ext; eauto.
+        + intros u. apply t_ret. auto.
+    Qed.
+  End Bodies.
 End Sigma.
